@@ -42,7 +42,7 @@ def random_graph(rng, n):
         elif style < 0.8:   # denser
             l = [rng.randint(1, n) for _ in range(rng.choice([0, 1, 2, 3]))]
         else:               # with dangling ids and duplicates
-            l = [rng.choice([0] + list(range(1, n + 1))) for _ in range(rng.choice([0, 1, 2, 3]))]
+            l = [rng.choice([0, 99] + list(range(1, n + 1))) for _ in range(rng.choice([0, 1, 2, 3, 4]))]
         g.append(l)
     return g
 
@@ -51,6 +51,7 @@ def run(ck, tier):
     sd = vplib.subdir('c18')
     cfgs = [('Needs_n1.cfg', '1 job: self dependency, dangling and duplicate entries'),
             ('Needs_n2.cfg', '2 jobs, lists <= 2 with dangling and duplicate ids'),
+            ('Needs_dang.cfg', '2 jobs, lists <= 3 over two job ids and TWO distinct dangling ids (0 and 9), duplicates allowed'),
             ('Needs_q3.cfg', '3 jobs, every ordered needs list (4096 graphs) x 6 root orders'),
             ('Needs_vec3.cfg', '3 jobs, lists <=2 with dangling and duplicate ids (9261 graphs)'),
             ('Needs_q4.cfg', '4 jobs, every edge set (65536 graphs) x 24 root orders')]
